@@ -122,11 +122,9 @@ def showMsg : Msg → String
 def magicOf? (chain : String) : Option Bytes :=
   (Spec.chainByName? chain).map (fun p => p.messageStart.map UInt8.ofNat)
 
-/-- "field values the protocol version carries", where the library's `msg_ser` writes the prescribed
-    payload (`serGate`), with a payload the length field and `ser_read` can honour -/
+/-- "field values the protocol version carries", with a payload the length field and `ser_read` can honour -/
 def inDomain (m : Msg) : Bool :=
-  decide (Spec.Msg.WFMsg m) && decide (Spec.Msg.serGate m) &&
-    decide ((Spec.Msg.payload m).length ≤ Spec.Wire.maxSize)
+  decide (Spec.Msg.WFMsg m) && decide ((Spec.Msg.payload m).length ≤ Spec.Wire.maxSize)
 
 /-- `c18.parse`: the messages and the final error are those of `Model.Msg.parseAll` (the function
     `parse_stream`, `parse_stream_append` speak about); the positions come from `Model.Msg.parseTrace`
